@@ -325,8 +325,8 @@ def dict2hdf5group(dictionary: dict, group: Group, **kwargs):
             dict2hdf5group(val, group.create_group(key), **kwargs)
             continue  # Jump to next item in dictionary
         elif isinstance(val, str):
-            ddtype = "S" + str(len(val) + 1)
             val = val.encode()
+            ddtype = "S" + str(len(val) + 1)  # Number of bytes, not characters
         elif ddtype == np.dtype("O"):
             try:
                 if isinstance(val, np.ndarray):
